@@ -90,6 +90,7 @@ const N_FLAGS: usize = 48;
 fn fmt_decimal() -> BoxedStrategy<D> {
     prop_oneof![
         4 => arb_d(),
+        2 => (arb_word_coeff(), arb_scale()).prop_map(|(c, s)| D::new(c, s)),
         // all nines: carry into the integer part
         2 => (1u32..=38, arb_scale(), any::<bool>()).prop_map(|(k, s, neg)| {
             let c = 10i128.pow(k) - 1;
